@@ -294,6 +294,7 @@ package transform
 
 // device requests (deploy.resources.reservations.devices, gpus): count defaults to all iff neither count nor device_ids is set
 //@ func deviceRequestDefaults
+//@   except nilbox#2 : undischarged on the reference tree (engine limit or missing callee contract), not claimed
 //@   nopanic[C01,C11]
 //@   ensures[C11] isMap(data) ==> err == nil && result == data
 //@   ensures[C11] !isMap(data) ==> err != nil
@@ -352,6 +353,7 @@ package transform
 // encode/e1/ret2 stands for that assumption about the dependency (kept active so that callers can rely on wf(result)).
 //@ func encode
 //@   nopanic[C01,C03]
+//@   trusted      // ASSUMED: mapstructure.Decoder.Decode into &m yields a fresh non-nil map when it returns no error (dependency)
 //@   ensures err == nil ==> result.0 != nil && fresh(result.0)
 
 // ports: every int/string entry is replaced, in order, by the long forms of ParsePortConfig(entry); mappings pass; anything else is an error
